@@ -323,8 +323,9 @@ pub fn gen_rt(rng: &mut Rng, count: usize, thorough: bool, out: &mut Vec<String>
         if seal == 1 || seal == 3 {
             ops.push(format!("m1/{}", cred));
         }
+        let split_keys = seal == 3 && rng.chance(1, 4);
         if seal == 2 || seal == 3 {
-            ops.push(format!("m2/{}", cred));
+            ops.push(format!("m2/{}", if split_keys { &other } else { &cred }));
         }
         if (i / 4) % 2 == 1 {
             ops.push("fp".into());
@@ -399,11 +400,14 @@ pub fn gen_ops(rng: &mut Rng, count: usize, thorough: bool, out: &mut Vec<String
         let mut used = vec![];
         let n = 1 + rng.below(if thorough { 20 } else { 9 });
         let c1 = rand_creds(rng);
+        // sometimes the two integrity attributes are added with different credentials (each must be the HMAC under its own key;
+        // validation selects the SHA-256 one)
+        let c2 = if rng.chance(1, 3) { rand_creds(rng) } else { c1.clone() };
         for _ in 0..n {
             let o = match rng.below(12) {
                 0..=4 => add_op(rng, &mut used, true),
                 5 => format!("m1/{}", c1),
-                6 => format!("m2/{}", c1),
+                6 => format!("m2/{}", c2),
                 7 => "fp".to_string(),
                 8 => "own".to_string(),
                 9 => "clone".to_string(),
@@ -412,6 +416,9 @@ pub fn gen_ops(rng: &mut Rng, count: usize, thorough: bool, out: &mut Vec<String
             ops.push(o);
             let ts = types_of(&ops);
             ops.push(format!("q/{}/{}", ts, c1));
+            if c2 != c1 {
+                ops.push(format!("q/-/{}", c2));
+            }
         }
         out.push(format!("{} ops={}", header(rng), ops.join(";")));
     }
